@@ -281,8 +281,10 @@ package avltree
 
 // ---- mutators. Put is verified: its body calls the recursive driver put, whose contract is verified in the thorough tier
 // ---- (further below; its obligations need up to 40 s each) and assumed in the quick tier. Remove is still an ASSUMED
-// ---- (trusted) contract: remove/removeMin take pointers to key/value fields, which is outside the engine's location
-// ---- model; it is backed only by the bounded stand-in (/verif/bounded/avl.go.tmpl) and listed under trusted_contracts.
+// ---- (trusted) contract: the proof of remove/removeMin (size is decremented before removeMin runs, the minimum's key and
+// ---- value are copied through *K / *V pointers into the node being deleted, the ghost sequence closes up at the bottom
+// ---- of the recursion) was not completed; it is backed only by the bounded stand-in (/verif/bounded/avl.go.tmpl) and
+// ---- listed under trusted_contracts.
 
 //@ -- Put: insert or replace. pnew (ghost result) is the position of the entry for `key` afterwards.
 //@ func Tree.Put
